@@ -28,6 +28,9 @@ CLAIMED = {
  "C07": ("package-wide who-may-call over typed receivers, post-dominance of the notification on a statement CFG, finally-protection of context-manager generators, def-use sets of the undo bookkeeping",
          "Static: definition-level mutators are called only by their owner, which notifies with the changed definition on every normal path; the propagation sweep marks clients, clears the dirty set only after the sweep and never while suspended; every state-setting context manager restores in a finally; the calculator's undo bookkeeping is restored on the interruption path. Equality of the incremental value with a fresh calculation over all histories is not decided.",
          "Trusts python ast, CFG, the receiver typing by origin (loop variables over self.defns are definitions; names pc/lf/self are controllers)."),
+ "C05": ("def-use template matching on the rate-matrix construction, C3 linearisation of the model class hierarchy, literal option table, CFG path cover",
+         "Static: every calcQ in the hierarchy fixes the diagonal to minus the row sums taken after all element-wise scaling and calibrates last by 1/(word_probs*row_totals).sum(); all 13 classes that declare stationarity resolve calcQ (by C3 MRO) to the implementation that scales by the motif probabilities and the 8 general ones do not; TimeReversible refuses asymmetric exchangeabilities on every path; rate-class multipliers are divided by their weighted mean; the exponentiator option table is exhaustive. Row-stochasticity, P(s+t)=P(s)P(t) and back-end agreement are numerical and not decided.",
+         "Trusts python ast, the C3 implementation, that calc_exchangeability_matrix yields non-negative off-diagonals with zero diagonal."),
 }
 
 NOT_APPLICABLE = {
